@@ -455,17 +455,34 @@ def run_op_unit(spec_name, k, opts):
 
 
 def apply_mir_mutation(I, mut):
-    """self-test: textual mutation of one MIR statement of a function (in memory)"""
+    """self-test: textual mutation of one MIR statement of a function.  The function item is deep-copied first:
+    parsed items are shared between the units a worker process runs, and a mutated body must not leak into them."""
+    import copy
     fn, old, new = mut
     hit = False
-    for it in I.items:
-        if it.kind == 'fn' and it.last == fn:
+    for idx, it in enumerate(I.items):
+        if it.kind == 'fn' and it.last == fn and not hit:
             for b in it.blocks.values():
-                for i, s in enumerate(b.raw):
-                    if old in s and not hit and not b.cleanup:
-                        b.raw[i] = s.replace(old, new, 1)
-                        b.stmts = None
-                        hit = True
+                if b.cleanup:
+                    continue
+                if any(old in s for s in b.raw):
+                    it2 = copy.deepcopy(it)
+                    for b2 in it2.blocks.values():
+                        for i, s in enumerate(b2.raw):
+                            if old in s and not hit and not b2.cleanup:
+                                b2.raw[i] = s.replace(old, new, 1)
+                                b2.stmts = None
+                                b2.term = None
+                                hit = True
+                    I.items = list(I.items)
+                    I.items[idx] = it2
+                    I.by_name[it2.name] = it2
+                    if getattr(it2, 'key', None) is not None and I.by_key.get(it2.key) is it:
+                        I.by_key[it2.key] = it2
+                    for cid, ci in list(I.by_closure.items()):
+                        if ci is it:
+                            I.by_closure[cid] = it2
+                    break
     if not hit:
         raise Unsupported('self-test mutation pattern not found: %s in %s' % (old, fn))
 
